@@ -73,9 +73,9 @@ func (tb *TB) Bool(b bool) *Term {
 	return tb.mk("const", 0, 0, "")
 }
 func (tb *TB) Var(name string, w int) *Term { return tb.mk("var", w, 0, name) }
-func (t *Term) IsConst() bool      { return t.op == "const" }
-func (t *Term) True() bool         { return t.op == "const" && t.w == 0 && t.val == 1 }
-func (t *Term) False() bool        { return t.op == "const" && t.w == 0 && t.val == 0 }
+func (t *Term) IsConst() bool               { return t.op == "const" }
+func (t *Term) True() bool                  { return t.op == "const" && t.w == 0 && t.val == 1 }
+func (t *Term) False() bool                 { return t.op == "const" && t.w == 0 && t.val == 0 }
 
 func sext(v uint64, w int) int64 {
 	if w >= 64 {
@@ -153,6 +153,18 @@ func (tb *TB) BV(op string, a, b *Term) *Term {
 		case "bvsrem":
 			q := tb.BV("bvsdiv", a, b)
 			return tb.BV("bvsub", a, tb.BV("bvshl", q, tb.Const(w, k)))
+		}
+	}
+	// normalise x - c to x + (-c) and fold constants through nested additions
+	if op == "bvsub" && b.IsConst() {
+		return tb.BV("bvadd", a, tb.Const(w, -b.val))
+	}
+	if op == "bvadd" {
+		if a.IsConst() && !b.IsConst() {
+			a, b = b, a
+		}
+		if b.IsConst() && a.op == "bvadd" && a.args[1].IsConst() {
+			return tb.BV("bvadd", a.args[0], tb.Const(w, a.args[1].val+b.val))
 		}
 	}
 	// light simplifications
